@@ -382,6 +382,24 @@ impl World {
     }
 }
 
+/// A `Frame::Message` without headers, laid out by hand (independently of the library's encoder):
+/// u64 BE payload length, type byte 4, bincode `None`, u64 LE message length, message.
+pub fn hand_encode_message(message: &[u8]) -> Vec<u8> {
+    let payload = 1 + 8 + message.len();
+    let mut v = Vec::with_capacity(9 + payload);
+    v.extend_from_slice(&(payload as u64).to_be_bytes());
+    v.push(4);
+    v.push(0);
+    v.extend_from_slice(&(message.len() as u64).to_le_bytes());
+    v.extend_from_slice(message);
+    v
+}
+
+/// Message length that makes the frame's payload `slack` bytes short of the 1 MiB frame limit.
+pub fn message_len_for_slack(slack: usize) -> usize {
+    1024 * 1024 - slack - 9
+}
+
 pub async fn raw_open(conn: &quinn::Connection, first: Frame) -> Result<BiStream> {
     use futures::SinkExt;
     let mut s = BiStream::try_from_connection(conn).await.map_err(|e| anyhow!("open_bi: {e}"))?;
